@@ -23,7 +23,11 @@ def one(meta: Path) -> tuple[str, dict]:
     only = [d.parent.name] if arg == "own" else (ALL if arg == "all" else arg.split(","))
     for q in only:
         env = dict(os.environ, VERIF_REPO=str(dst), VERIF_EVIDENCE_DIR=str(dst) + "_ev")
-        p = subprocess.run([str(VERIF / "check"), q], capture_output=True, text=True, env=env)
+        try:
+            p = subprocess.run([str(VERIF / "check"), q], capture_output=True, text=True, env=env, timeout=int(os.environ.get("CHECK_TIMEOUT", "900")))
+        except subprocess.TimeoutExpired:
+            res[q] = {"exit": "timeout", "rules": [], "tail": "check did not finish within the time limit"}
+            continue
         rules = sorted({ln.split("rule=")[1].split(" ")[0] for ln in p.stdout.splitlines() if "finding rule=" in ln})
         res[q] = {"exit": p.returncode, "rules": rules, "tail": (p.stdout.strip().splitlines() or [""])[-1][:160]}
     shutil.rmtree(dst, ignore_errors=True); shutil.rmtree(str(dst) + "_ev", ignore_errors=True)
